@@ -100,6 +100,7 @@ FAMILY_PLAN = [
     ('tryfin', 6, 200, None, 1, dict(balanced_exc=True)),
     ('tryret', 7, 800, 3000, 1, {}),
     ('finnest', 7, 250, 2500, 1, dict(balanced_exc=True)),
+    ('tryelse', 5, 300, 2500, 1, dict(balanced_exc=True)),
 ]
 
 
